@@ -25,7 +25,10 @@ require (
 	github.com/ngicks/eventqueue v0.0.0-20230822171926-4da05f80335a // indirect
 	github.com/ngicks/generic v0.0.0-20230320024227-32842ed7ed0f // indirect
 	github.com/ngicks/genericcontainer v0.0.0-20231218091927-6099d7e84fb9 // indirect
+	github.com/ngicks/gommon/pkg/common v0.2.0 // indirect
 	github.com/ngicks/mockable v0.0.0-20230524100816-106941ea893e // indirect
+	github.com/ngicks/type-param-common v0.2.0 // indirect
+	github.com/ngicks/workerpool v0.0.1-alpha5 // indirect
 	github.com/robfig/cron/v3 v3.0.1 // indirect
 	github.com/wk8/go-ordered-map/v2 v2.1.8 // indirect
 	github.com/zclconf/go-cty v1.8.0 // indirect
